@@ -29,7 +29,7 @@ LEVEL = 'exploration'
 STEP_UNIT = 'history operations (render, failed render, restart, copy, edit, file change)'
 CASE_TIMEOUT = 300
 TIERS = {'quick': (48000, 170), 'thorough': (2000000, 2400)}
-PROBES = ['render_after_restart', 'render_after_munge',
+PROBES = ['file_template_munged_to_other_file', 'render_after_restart', 'render_after_munge',
           'render_after_failed_render', 'render_after_other_inputs',
           'render_after_deepcopy', 'restart_mid_render',
           'sort_expr_differs_between_renders', 'bytes_text_mix_after_restart',
@@ -261,6 +261,8 @@ FRAGS = [
     '<dtml-var a><dtml-if last-n>}</dtml-if><dtml-if sequence-end>'
     '<dtml-var median-n>/<dtml-var min-a>/<dtml-var sequence-var-a>'
     '</dtml-if></dtml-in>',
+    # 24 an expression that needs one of its names only sometimes
+    '<dtml-var expr="c or zz">;<dtml-var expr="zz if not c else x">',
     # 23 unless / call / comment
     '<dtml-unless c>U<dtml-var x></dtml-unless><dtml-call hook>'
     '<dtml-comment>never <dtml-var nothing></dtml-comment>',
@@ -303,7 +305,8 @@ def gen_inputs(r):
             'x': r.choice(['x<y', 'plain', 'Zed&', 'café']),
             'b': r.choice(['', '62', 'c3a9', 'e9']),
             'n2': r.choice([0, 2, 7]), 'c': r.choice([0, 1, 'c', '']),
-            'via': r.choice(['kw', 'mapping', 'client'])}
+            'via': r.choice(['kw', 'mapping', 'client']),
+            'zz': r.choice([None, None, 'Z', 'zz2'])}
 
 
 class Hook:
@@ -341,6 +344,8 @@ def build_inputs(spec, plan, template):
             'st': spec['st'], 'sz': spec['sz'], 'x': spec['x'],
             'b': bytes.fromhex(spec['b']), 'n2': spec['n2'], 'c': spec['c'],
             'obj': Rec('obj', a='oa', n=9), 'hook': hook}
+    if spec.get('zz') is not None:
+        data['zz'] = spec['zz']
     watch = [seq, mseq, data, data['pairs']] + mseq + \
         [o.__dict__ for o in seq]
     via = spec['via']
@@ -428,7 +433,7 @@ def gen_case(seed, tier):
                               'munge']
     if is_file:
         kinds += ['fs_write', 'fs_write', 'fs_remove', 'fs_ioerror',
-                  'restart']
+                  'restart', 'munge_file']
     # swarm: a random subset of the non-render kinds
     allowed = {k for k in sorted(set(kinds)) if r.random() < 0.7} | {'render'}
     kinds = [k for k in kinds if k in allowed]
@@ -464,6 +469,7 @@ def gen_case(seed, tier):
 # ------------------------------------------------------------------ runner
 
 FNAME = '/sim/templates/t0.dtml'
+FNAME2 = '/sim/templates/other.dtml'
 MARK = 'UNIQUE-CONTENT-MARKER-7f3a'
 
 
@@ -482,7 +488,7 @@ def construct(case, state, fs):
     d = build_defaults(case, state['defaults'], state['with_sub'])
     ROUTER.cur = fs
     if case['cls'] in ('HTMLFile', 'File'):
-        t = cls(FNAME, **d)
+        t = cls(state.get('fname', FNAME), **d)
     elif state['encoding']:
         t = cls(state['src'], encoding=state['encoding'], **d)
     else:
@@ -594,12 +600,17 @@ def run_case(case):
         detail['class'] = case['cls']
         violations.append({'rule': rule, 'key': key, 'detail': detail})
 
-    fs = FS({FNAME: src_text(case, case['start'])} if is_file else {})
+    fs = FS({FNAME: src_text(case, case['start']),
+             FNAME2: src_text(case, (case['start'] + 1) % len(
+                 case['sources']))} if is_file else {})
     state = {'src': None if is_file else src_text(case, case['start']),
              'j': case['start'], 'cooked': None, 'cooked_j': None,
              'defaults': dict(case['defaults']), 'vars': {},
              'encoding': case['encoding'], 'file_j': case['start'],
-             'with_sub': bool(case.get('with_sub')), 'failed_cook': None}
+             'with_sub': bool(case.get('with_sub')), 'failed_cook': None,
+             'fname': FNAME,
+             'file_js': {FNAME: case['start'], FNAME2: (case['start'] + 1)
+                         % len(case['sources'])}}
     t = construct(case, state, fs)
     since = set()       # what happened since the last successful render
     last_input = None
@@ -613,15 +624,15 @@ def run_case(case):
         if not is_file:
             return FS(), state['j']
         if state['cooked'] is not None:
-            return FS({FNAME: state['cooked']}, None, fs.mtimes,
+            return FS({state['fname']: state['cooked']}, None, fs.mtimes,
                       fs.clock), state['cooked_j']
-        return fs.clone(), state['file_j']
+        return fs.clone(), state['file_js'][state['fname']]
 
     def note_cook(ok):
         if is_file:
-            if ok and FNAME in fs.files:
-                state['cooked'] = fs.files[FNAME]
-                state['cooked_j'] = state['file_j']
+            if ok and state['fname'] in fs.files:
+                state['cooked'] = fs.files[state['fname']]
+                state['cooked_j'] = state['file_js'][state['fname']]
             # a cook that failed to read leaves the previous compiled
             # state (if any) in place
 
@@ -707,7 +718,7 @@ def run_case(case):
             viol('pickle_state', 'pickle_state:volatile_keys',
                  {'keys': bad}, step)
         if is_file:
-            if FNAME.encode() not in blob:
+            if state['fname'].encode() not in blob:
                 viol('pickle_state', 'pickle_state:no_file_name', {}, step)
             if MARK.encode() in blob:
                 viol('pickle_state', 'pickle_state:file_content_pickled',
@@ -793,6 +804,17 @@ def run_case(case):
                 state['with_sub'] = False
             note_cook(ok)
             since.add('munge')
+        elif k == 'munge_file':
+            # a file template pointed at another file
+            new = FNAME2 if state['fname'] == FNAME else FNAME
+            state['fname'] = new
+            try:
+                t.munge(new)
+                note_cook(True)
+            except (OSError, FileNotFoundError):
+                pass
+            since.add('munge')
+            probe('file_template_munged_to_other_file')
         elif k == 'var':
             t.var(**{op[1]: op[2]})
             state['vars'][op[1]] = op[2]
@@ -803,18 +825,19 @@ def run_case(case):
             since.add('default')
         elif k == 'fs_write':
             same = len(op) > 2 and bool(op[2])
-            fs.write(FNAME, src_text(case, op[1]), same_mtime=same)
+            fs.write(state['fname'], src_text(case, op[1]), same_mtime=same)
             state['file_j'] = op[1]
+            state['file_js'][state['fname']] = op[1]
             since.add('fs_write')
             fk = 'fs.changed_same_mtime' if same else 'fs.changed'
             faults[fk] = faults.get(fk, 0) + 1
         elif k == 'fs_remove':
-            fs.remove(FNAME)
+            fs.remove(state['fname'])
             since.add('fs_missing')
         elif k == 'fs_restore':
-            fs.write(FNAME, src_text(case, state['file_j']))
+            fs.write(state['fname'], src_text(case, state['file_j']))
         elif k == 'fs_ioerror':
-            fs.faults[FNAME] = 1
+            fs.faults[state['fname']] = 1
             since.add('fs_ioerror')
         else:
             raise AssertionError(op)
